@@ -111,6 +111,7 @@ def run_property(prop, tier, seed, replay_only=None):
                 scratch.append(root)
                 variants[v] = (root, crate)
                 ov_info[v] = info
+                kani.register_overlay(v, crate)
         sched = MemSched(float(os.environ.get("VERIF_MEM_GB", "52")), int(os.environ.get("VERIF_PROCS", "12")))
         scale = float(os.environ.get("VERIF_TIMEOUT_SCALE", "1"))
 
